@@ -1,6 +1,7 @@
 mod cmd_backend;
 mod cmd_stages;
 mod consts;
+mod gen_axlin;
 mod pipe;
 mod rec;
 mod rng;
